@@ -81,6 +81,7 @@ class Ob:
         self.samples = []
         self.notes = []
         self.stats = {}
+        self.broken = []            # vacuity / anchor problems: reported as ANALYSIS-ERROR unless a violation was found anyway
 
     def count(self, n=1):
         self.instances += n
@@ -112,9 +113,11 @@ class Ob:
         return f
 
     def require(self, cond, what):
-        """vacuity guard: the rule found the subject it is about"""
+        """vacuity guard: the rule found the subject it is about.  Deferred: if the same run also finds a violation the
+        violation is reported (a change that removes a construct usually does both); otherwise the run is analysis-broken."""
         if not cond:
-            raise AnalysisError(f'{self.id}: {what}')
+            self.broken.append(f'{self.id}: {what}')
+        return bool(cond)
 
     def to_json(self):
         return {'id': self.id, 'kind': self.kind, 'obligation': self.text, 'instances': self.instances,
@@ -186,8 +189,8 @@ def run_property(pid, repo='/repo', tier='quick', seed=0, quiet=False):
         floor = getattr(mod, 'MIN_INSTANCES', 1)
         total = sum(o.instances for o in obs)
         if total < floor:
-            raise AnalysisError(f'{pid}: only {total} rule instances evaluated, expected at least {floor} '
-                                '(a rule matching nothing must not pass silently)')
+            obs[0].broken.append(f'{pid}: only {total} rule instances evaluated, expected at least {floor} '
+                                 '(a rule matching nothing must not pass silently)')
     except AnalysisError as e:
         print(f'ANALYSIS-ERROR property={pid} {e}')
         return 2
@@ -196,6 +199,7 @@ def run_property(pid, repo='/repo', tier='quick', seed=0, quiet=False):
         print(f'ANALYSIS-ERROR property={pid} internal error in the checker (see traceback)')
         return 2
 
+    broken = [m for o in obs for m in o.broken]
     known = load_known()
     known_keys = {k['key']: k for k in known.get('known', []) if k.get('property') == pid}
     new, old = [], []
@@ -257,6 +261,8 @@ def run_property(pid, repo='/repo', tier='quick', seed=0, quiet=False):
     if new:
         viol_path.write_text(json.dumps({'property': pid, 'repo': str(repo), 'tier': tier,
                                          'violations': [f.to_json() for f in new]}, indent=1) + '\n')
+        for m in broken:
+            print(f'  note: {m}')
         for f in new:
             print('  FINDING ' + f.one_line())
             for ln in f.path[-12:]:
@@ -265,6 +271,10 @@ def run_property(pid, repo='/repo', tier='quick', seed=0, quiet=False):
         return 1
     if viol_path.exists():
         viol_path.unlink()
+    if broken:
+        for m in broken:
+            print(f'ANALYSIS-ERROR property={pid} {m}')
+        return 2
     return 0
 
 
